@@ -203,7 +203,9 @@ func runSLH(rc *sk.RunCtx, focus string) {
 					}
 				}
 				if tp.Chance(1, 2) {
-					al.ranges = map[string]map[string]bool{"10.128.0.0/29": {"0.0.0.0/0": true, "::/0": true, "2.0.0.0/8": tp.Chance(1, 2), "192.168.7.0/24": tp.Chance(1, 2)}}
+					// the inside range: all nodes, or only some of the peers (not the lighthouse, 10.128.0.1)
+					rk := []string{"10.128.0.0/29", "10.128.0.2/31", "10.128.0.4/30", "10.128.0.0/29"}[tp.Choose(4)]
+					al.ranges = map[string]map[string]bool{rk: {"0.0.0.0/0": true, "::/0": true, "2.0.0.0/8": tp.Chance(1, 2), "192.168.7.0/24": tp.Chance(1, 2)}}
 				}
 			}
 			w.allow = append(w.allow, al)
